@@ -89,7 +89,7 @@ func runC03(c *Ctx) {
 	_ = dir
 	cases := genBalCasesWith(c, "valued", n, func(r *RNG) JGenOpts {
 		return JGenOpts{MaxAccounts: r.Range(2, 6), MaxDays: r.Range(2, 9), BaseDay: 737000 + r.Intn(1500), SpanDays: Pick(r, []int{5, 40, 100, 400}),
-			Prices: true, Valuation: Pick(r, []string{"CHF", "USD"}), ManyDecimals: r.Chance(1, 3), DropPrices: r.Chance(1, 8), ChainPrices: r.Chance(1, 3)}
+			Prices: true, Valuation: Pick(r, []string{"CHF", "USD"}), ManyDecimals: r.Chance(1, 3), DropPrices: r.Chance(1, 8), ChainPrices: r.Chance(1, 3), DupPrices: true}
 	}, func(r *RNG, j *Journal, val string) BalFlags {
 		f := GenBalFlags(r, j, val, BalGenOpts{Valued: true, NoFilters: true})
 		f.Map, f.Remap, f.Show, f.Diff, f.CSV, f.Thousands = nil, nil, nil, false, false, false
